@@ -48,7 +48,7 @@ Proof.
   pose proof (blen_nonneg (concat cs)) as Hcs0. pose proof (blen_nonneg (r_buf r)) as Hb0.
   assert (Hn : (0 < n <= length c)%nat) by (unfold n, blen in *; lia).
   assert (Hfl : blen (firstn n c) = Z.of_nat n) by (rewrite firstn_skipn_len; unfold blen; lia).
-  cbv zeta. unfold inv, remaining, budget. cbn [r_buf r_chunks r_lim r_err r_closed].
+  cbv zeta. unfold inv, remaining, budget. cbn [r_buf r_chunks r_lim r_err r_closed r_end].
   assert (Hsplit : firstn n c ++ skipn n c = c) by apply firstn_skipn.
   unfold remaining in Hb. rewrite Hcs in Hb |- *. cbn [concat] in Hb |- *.
   assert (Hne1 : Forall nonempty cs) by (rewrite Hcs in Hne; inversion Hne; assumption).
@@ -123,7 +123,7 @@ Lemma drop_ok n r : inv r -> 0 <= n <= blen (r_buf r) ->
   let r' := set_buf r (skipn (Z.to_nat n) (r_buf r)) in
   inv r' /\ remaining r' = skipn (Z.to_nat n) (remaining r) /\ budget r' = budget r - n.
 Proof.
-  intros (He & Hc & Hne & Hbz) Hn. cbv zeta. unfold inv, remaining at 1 2, budget, set_buf. cbn [r_buf r_chunks r_lim r_err r_closed].
+  intros (He & Hc & Hne & Hbz) Hn. cbv zeta. unfold inv, remaining at 1 2, budget, set_buf. cbn [r_buf r_chunks r_lim r_err r_closed r_end].
   rewrite skipn_buf_remaining by exact Hn.
   assert (Hl : blen (skipn (Z.to_nat n) (remaining r)) = blen (remaining r) - n).
   { unfold blen. rewrite skipn_length. unfold remaining. rewrite app_length. unfold blen in Hn. lia. }
@@ -148,26 +148,26 @@ Qed.
 (* after the header: the application reads everything that remains, then EOF *)
 Lemma drain_ok cs : forall buf lim acc fuel,
   Forall nonempty cs -> (2 * length cs + 3 <= fuel)%nat -> blen (buf ++ concat cs) <= BUFSZ -> blen (concat cs) < lim ->
-  drain fuel (mkRd buf cs lim 0 false) acc = (acc ++ buf ++ concat cs, E_EOF).
+  drain fuel (mkRd buf cs lim 0 false E_EOF) acc = (acc ++ buf ++ concat cs, E_EOF).
 Proof.
   induction cs as [|c cs IH]; intros buf lim acc fuel Hne Hf Hb Hl.
   - cbn [concat] in *. rewrite app_nil_r.
     destruct buf as [|x buf].
     + destruct fuel as [|fuel]; [cbn [length] in Hf; lia|].
       cbn [drain r_buf r_err negb Z.eqb]. unfold fill. cbn [r_lim r_closed r_chunks].
-      destruct (lim <=? 0); unfold set_err; cbn [r_buf r_chunks r_lim r_err r_closed];
+      destruct (lim <=? 0); unfold set_err; cbn [r_buf r_chunks r_lim r_err r_closed r_end];
         (destruct fuel as [|fuel]; [cbn [length] in Hf; lia|]); cbn [drain r_buf r_err]; rewrite app_nil_r; reflexivity.
     + destruct fuel as [|fuel]; [cbn [length] in Hf; lia|].
-      cbn [drain r_buf]. unfold set_buf. cbn [r_buf r_chunks r_lim r_err r_closed].
+      cbn [drain r_buf]. unfold set_buf. cbn [r_buf r_chunks r_lim r_err r_closed r_end].
       destruct fuel as [|fuel]; [cbn [length] in Hf; lia|].
       cbn [drain r_buf r_err negb Z.eqb]. unfold fill. cbn [r_lim r_closed r_chunks].
-      destruct (lim <=? 0); unfold set_err; cbn [r_buf r_chunks r_lim r_err r_closed];
+      destruct (lim <=? 0); unfold set_err; cbn [r_buf r_chunks r_lim r_err r_closed r_end];
         (destruct fuel as [|fuel]; [cbn [length] in Hf; lia|]); cbn [drain r_buf r_err]; reflexivity.
   - inversion Hne as [|? ? Hc Hcs]; subst.
     assert (Hclen : 0 < blen c) by (unfold blen; destruct c; [unfold nonempty in Hc; congruence|cbn [length]; lia]).
     cbn [concat] in *. rewrite !blen_app in *. pose proof (blen_nonneg (concat cs)) as H0. pose proof (blen_nonneg buf) as H1.
-    assert (Hfill : fill (mkRd [] (c :: cs) lim 0 false) = mkRd c cs (lim - blen c) 0 false).
-    { unfold fill. cbn [r_buf r_chunks r_lim r_err r_closed].
+    assert (Hfill : fill (mkRd [] (c :: cs) lim 0 false E_EOF) = mkRd c cs (lim - blen c) 0 false E_EOF).
+    { unfold fill. cbn [r_buf r_chunks r_lim r_err r_closed r_end].
       replace (lim <=? 0) with false by lia.
       replace (Z.to_nat (Z.min (Z.min (BUFSZ - blen []) lim) (blen c))) with (length c) by (unfold blen in *; cbn [length]; lia).
       rewrite firstn_all, skipn_all. cbn [app]. reflexivity. }
@@ -176,7 +176,7 @@ Proof.
       cbn [drain r_buf r_err negb Z.eqb]. rewrite Hfill.
       rewrite IH; [cbn [app]; reflexivity|exact Hcs|cbn [length] in Hf; lia|rewrite blen_app; unfold blen in *; cbn [length] in *; lia|lia].
     + destruct fuel as [|fuel]; [cbn [length] in Hf; lia|].
-      cbn [drain r_buf]. unfold set_buf. cbn [r_buf r_chunks r_lim r_err r_closed].
+      cbn [drain r_buf]. unfold set_buf. cbn [r_buf r_chunks r_lim r_err r_closed r_end].
       destruct fuel as [|fuel]; [cbn [length] in Hf; lia|].
       cbn [drain r_buf r_err negb Z.eqb]. rewrite Hfill.
       rewrite IH; [rewrite <- !app_assoc; reflexivity|exact Hcs|cbn [length] in Hf; lia|rewrite blen_app; unfold blen in *; cbn [length] in *; lia|lia].
@@ -256,12 +256,12 @@ Proof.
   destruct c; [unfold nonempty in Hc; congruence|cbn [length]; lia].
 Qed.
 
-Lemma inv_start cs lim : Forall nonempty cs -> blen (concat cs) <= BUFSZ -> inv (mkRd [] cs lim 0 false).
+Lemma inv_start cs lim e : Forall nonempty cs -> blen (concat cs) <= BUFSZ -> inv (mkRd [] cs lim 0 false e).
 Proof. intros H1 H2. unfold inv, remaining. cbn [r_buf r_chunks r_err r_closed app]. auto. Qed.
 
 (* after a successfully parsed header (or none) the application receives exactly the remaining bytes, then EOF *)
 Lemma drain_after r fuel : inv r -> (2 * length (concat (r_chunks r)) + 3 <= fuel)%nat ->
-  drain fuel (mkRd (r_buf r) (r_chunks r) NOLIMIT (r_err r) false) [] = (remaining r, E_EOF).
+  drain fuel (mkRd (r_buf r) (r_chunks r) NOLIMIT (r_err r) false E_EOF) [] = (remaining r, E_EOF).
 Proof.
   intros (He & Hc & Hne & Hb) Hf. rewrite He.
   rewrite drain_ok; [reflexivity|exact Hne|pose proof (nonempty_len _ Hne); lia|exact Hb|].
@@ -273,10 +273,10 @@ Ltac destr_list l H :=
   repeat (destruct l as [|? l]; [exfalso; unfold blen in H; cbn [length] in H; lia|]);
   destruct l as [|? l]; [|exfalso; unfold blen in H; cbn [length] in H; lia].
 
-Lemma conn_run_v2 limit chunks os od fam L rest :
+Lemma conn_run_v2 tmo limit chunks os od fam L rest :
   concat chunks = v2_stream 33 fam L rest -> blen (concat chunks) <= BUFSZ ->
   0 <= L < 65536 -> fam_supported fam = true -> min_len fam <= L -> L <= blen rest -> 16 + L <= eff_limit limit ->
-  conn_run limit chunks os od =
+  conn_run tmo limit chunks os od =
   (let h := v2_hdr fam (firstn (Z.to_nat L) rest) in
    let '(s, d) := if h_local h || negb ((fam_hi (h_fam h) =? 1) || (fam_hi (h_fam h) =? 2)) then (None, None)
                   else match h_src h, h_dst h with
@@ -289,7 +289,7 @@ Proof.
   set (cs := ne_filter chunks).
   assert (Hcs : concat cs = concat chunks) by apply ne_filter_concat.
   assert (Hne : Forall nonempty cs) by apply ne_filter_nonempty.
-  set (r0 := mkRd [] cs (eff_limit limit) 0 false).
+  set (r0 := mkRd [] cs (eff_limit limit) 0 false (end_of tmo)).
   assert (Hi0 : inv r0) by (apply inv_start; [exact Hne|rewrite Hcs; exact Hb]).
   assert (Hr0 : remaining r0 = v2_stream 33 fam L rest) by (unfold remaining, r0; cbn [r_buf r_chunks app]; congruence).
   assert (Hb0 : 16 + L <= budget r0) by (unfold budget, r0, blen; cbn [r_buf r_lim length]; lia).
@@ -319,13 +319,13 @@ Proof.
   unfold blen. rewrite Nat2Z.id. induction a as [|x a IH]; [reflexivity|]. cbn [length app skipn]. exact IH.
 Qed.
 
-Theorem v2_proxy_roundtrip limit chunks os od fam src dst sp dp tlv payload :
+Theorem v2_proxy_roundtrip tmo limit chunks os od fam src dst sp dp tlv payload :
   concat chunks = enc_v2_proxy fam src dst sp dp tlv ++ payload ->
   blen (concat chunks) <= BUFSZ ->
   ((fam = 17 \/ fam = 18) /\ blen src = 4 /\ blen dst = 4) \/ ((fam = 33 \/ fam = 34) /\ blen src = 16 /\ blen dst = 16) ->
   0 <= sp < 65536 -> 0 <= dp < 65536 ->
   16 + blen (block_ip src dst sp dp ++ tlv) <= eff_limit limit ->
-  conn_run limit chunks os od =
+  conn_run tmo limit chunks os od =
   VL [VL [VB (canon_ip src); VZ sp]; VL [VB (canon_ip dst); VZ dp]; VB payload; VZ 0; VZ 0].
 Proof.
   intros Hs Hb Hfam Hsp Hdp Hlim.
@@ -340,7 +340,7 @@ Proof.
   assert (Hmin : fam_supported fam = true /\ min_len fam <= blen blk).
   { destruct Hfam as [[[->| ->] [H1 H2]]|[[->| ->] [H1 H2]]]; (split; [reflexivity|]);
       [change (min_len 17) with 12|change (min_len 18) with 12|change (min_len 33) with 36|change (min_len 34) with 36]; lia. }
-  rewrite (conn_run_v2 limit chunks os od fam (blen blk) (blk ++ payload) Hs Hb);
+  rewrite (conn_run_v2 tmo limit chunks os od fam (blen blk) (blk ++ payload) Hs Hb);
     [|pose proof (blen_nonneg blk); lia|apply Hmin|apply Hmin|rewrite blen_app; lia|exact Hlim].
   rewrite firstn_app_exactZ, skipn_app_exactZ.
   unfold blk, block_ip, u16be.
@@ -390,11 +390,11 @@ Proof.
   eexists; split; [reflexivity|split; [exact D1|exact D2]].
 Qed.
 
-Theorem v2_local_roundtrip limit chunks os od fam block tlv payload :
+Theorem v2_local_roundtrip tmo limit chunks os od fam block tlv payload :
   concat chunks = enc_v2 32 fam block tlv ++ payload ->
   blen (concat chunks) <= BUFSZ ->
   16 + blen (block ++ tlv) <= eff_limit limit ->
-  conn_run limit chunks os od = VL [VL []; VL []; VB payload; VZ 0; VZ 0].
+  conn_run tmo limit chunks os od = VL [VL []; VL []; VB payload; VZ 0; VZ 0].
 Proof.
   intros Hs Hb Hlim.
   assert (Hs' : concat chunks = v2_stream 32 fam (blen (block ++ tlv)) ((block ++ tlv) ++ payload)).
@@ -407,7 +407,7 @@ Proof.
   set (cs := ne_filter chunks).
   assert (Hcs : concat cs = concat chunks) by apply ne_filter_concat.
   assert (Hne : Forall nonempty cs) by apply ne_filter_nonempty.
-  set (r0 := mkRd [] cs (eff_limit limit) 0 false).
+  set (r0 := mkRd [] cs (eff_limit limit) 0 false (end_of tmo)).
   assert (Hi0 : inv r0) by (apply inv_start; [exact Hne|rewrite Hcs; exact Hb]).
   assert (Hr0 : remaining r0 = v2_stream 32 fam (blen blk) (blk ++ payload)) by (unfold remaining, r0; cbn [r_buf r_chunks app]; congruence).
   assert (Hb0 : 16 + blen blk <= budget r0) by (unfold budget, r0, blen; cbn [r_buf r_lim length]; unfold blen in Hlim; lia).
@@ -422,16 +422,16 @@ Proof.
 Qed.
 
 (* ---------------- no header ---------------- *)
-Theorem no_header_passthrough limit chunks os od b rest :
+Theorem no_header_passthrough tmo limit chunks os od b rest :
   concat chunks = b :: rest -> b <> 80 -> b <> 13 -> blen (concat chunks) <= BUFSZ ->
-  conn_run limit chunks os od = VL [VL []; VL []; VB (b :: rest); VZ 0; VZ 0].
+  conn_run tmo limit chunks os od = VL [VL []; VL []; VB (b :: rest); VZ 0; VZ 0].
 Proof.
   intros Hs H80 H13 Hb.
   unfold conn_run. fold (ne_filter chunks).
   set (cs := ne_filter chunks).
   assert (Hcs : concat cs = concat chunks) by apply ne_filter_concat.
   assert (Hne : Forall nonempty cs) by apply ne_filter_nonempty.
-  set (r0 := mkRd [] cs (eff_limit limit) 0 false).
+  set (r0 := mkRd [] cs (eff_limit limit) 0 false (end_of tmo)).
   assert (Hi0 : inv r0) by (apply inv_start; [exact Hne|rewrite Hcs; exact Hb]).
   assert (Hr0 : remaining r0 = b :: rest) by (unfold remaining, r0; cbn [r_buf r_chunks app]; congruence).
   assert (Hl : 1 <= eff_limit limit) by (unfold eff_limit; destruct (limit <=? 0) eqn:E; lia).
@@ -460,10 +460,10 @@ Proof.
   - rewrite Z.eqb_sym, E. reflexivity.
 Qed.
 
-Theorem no_header_passthrough_sig limit chunks os od :
+Theorem no_header_passthrough_sig tmo limit chunks os od :
   is_prefix SIGV1 (concat chunks) = false -> is_prefix SIGV2 (concat chunks) = false ->
   12 <= blen (concat chunks) -> 12 <= eff_limit limit -> blen (concat chunks) <= BUFSZ ->
-  conn_run limit chunks os od = VL [VL []; VL []; VB (concat chunks); VZ 0; VZ 0].
+  conn_run tmo limit chunks os od = VL [VL []; VL []; VB (concat chunks); VZ 0; VZ 0].
 Proof.
   intros H1 H2 H12 Hlim Hb.
   set (s := concat chunks) in *.
@@ -471,13 +471,13 @@ Proof.
   set (cs := ne_filter chunks).
   assert (Hcs : concat cs = s) by apply ne_filter_concat.
   assert (Hne : Forall nonempty cs) by apply ne_filter_nonempty.
-  set (r0 := mkRd [] cs (eff_limit limit) 0 false).
+  set (r0 := mkRd [] cs (eff_limit limit) 0 false (end_of tmo)).
   assert (Hi0 : inv r0) by (apply inv_start; [exact Hne|rewrite Hcs; exact Hb]).
   assert (Hr0 : remaining r0 = s) by (unfold remaining, r0; cbn [r_buf r_chunks app]; exact Hcs).
   assert (Hbud : budget r0 = eff_limit limit) by (unfold budget, r0, blen; cbn [r_buf r_lim length]; lia).
   assert (Hfin : forall r1, inv r1 -> remaining r1 = s ->
-            (let '(data, e) := drain (fuel_of r0 + fuel_of r0) (mkRd (r_buf r1) (r_chunks r1) NOLIMIT (r_err r1) false) [] in
-             VL [vaddr None; vaddr None; VB data; VZ (if e =? E_EOF then 0 else if e =? E_CLOSED then 1 else 3); VZ 0])
+            (let '(data, e) := drain (fuel_of r0 + fuel_of r0) (mkRd (r_buf r1) (r_chunks r1) NOLIMIT (r_err r1) false E_EOF) [] in
+             VL [vaddr None; vaddr None; VB data; VZ (if e =? E_EOF then 0 else if e =? E_CLOSED then 1 else if e =? E_TMO then 2 else 3); VZ 0])
             = VL [VL []; VL []; VB s; VZ 0; VZ 0]).
   { intros r1 I1 R1. rewrite drain_after; [|exact I1|].
     - rewrite R1. reflexivity.
@@ -500,14 +500,14 @@ Qed.
 (* finding 1 as a theorem: "PUT" then EOF has no signature, but nothing is delivered and the connection is closed *)
 Lemma no_header_refuted_lemma :
   exists chunks, spec_classify 0 [] [] (concat chunks) = SNoHeader
-                 /\ conn_run 0 chunks [] [] = VL [VL []; VL []; VB []; VZ 0; VZ 1]
+                 /\ conn_run false 0 chunks [] [] = VL [VL []; VL []; VB []; VZ 0; VZ 1]
                  /\ short_sig_first 0 (concat chunks) = true.
 Proof. exists [[80; 85; 84]]. vm_compute. repeat split. Qed.
 
 (* ---------------- malformed header: nothing is delivered, the connection is closed ---------------- *)
-Theorem malformed_no_data limit chunks os od code r' :
-  proxy_read os od (mkRd [] (ne_filter chunks) (eff_limit limit) 0 false) = (RErr code, r') ->
-  conn_run limit chunks os od = VL [VL []; VL []; VB []; VZ code; VZ 1].
+Theorem malformed_no_data tmo limit chunks os od code r' :
+  proxy_read os od (mkRd [] (ne_filter chunks) (eff_limit limit) 0 false (end_of tmo)) = (RErr code, r') ->
+  conn_run tmo limit chunks os od = VL [VL []; VL []; VB []; VZ code; VZ 1].
 Proof. intros H. unfold conn_run. fold (ne_filter chunks). rewrite H. reflexivity. Qed.
 
 (* ---------------- v1: reading the line ---------------- *)
@@ -581,7 +581,7 @@ Proof.
   rewrite E1, cut_nl_app by exact Hl.
   eexists. split; [reflexivity|].
   destruct H1 as (He & Hc & Hne & Hbz).
-  unfold inv, remaining, set_buf. cbn [r_buf r_chunks r_lim r_err r_closed].
+  unfold inv, remaining, set_buf. cbn [r_buf r_chunks r_lim r_err r_closed r_end].
   split; [split; [exact He|split; [exact Hc|split; [exact Hne|]]]|symmetry; exact E2].
   unfold remaining in Hbz. rewrite E1 in Hbz. rewrite !blen_app, !blen_cons in Hbz. rewrite blen_app.
   pose proof (blen_nonneg l0). lia.
@@ -762,13 +762,13 @@ Proof.
   eexists. split; [reflexivity|split; [exact I3|exact R3]].
 Qed.
 
-Theorem v1_tcp4_roundtrip limit chunks os od src dst sp dp payload :
+Theorem v1_tcp4_roundtrip tmo limit chunks os od src dst sp dp payload :
   concat chunks = enc_v1_tcp4 src dst sp dp ++ payload ->
   blen (concat chunks) <= BUFSZ ->
   blen src = 4 -> blen dst = 4 -> wf_bytes src = true -> wf_bytes dst = true ->
   0 <= sp < 65536 -> 0 <= dp < 65536 ->
   blen (enc_v1_tcp4 src dst sp dp) <= eff_limit limit ->
-  conn_run limit chunks os od = VL [VL [VB src; VZ sp]; VL [VB dst; VZ dp]; VB payload; VZ 0; VZ 0].
+  conn_run tmo limit chunks os od = VL [VL [VB src; VZ sp]; VL [VB dst; VZ dp]; VB payload; VZ 0; VZ 0].
 Proof.
   intros Hs Hb Hls Hld Hws Hwd Hsp Hdp Hlim.
   destruct (wf4 src Hls Hws) as (a & b & c & d & -> & Ha & Hb' & Hc & Hd).
@@ -780,7 +780,7 @@ Proof.
   set (cs := ne_filter chunks).
   assert (Hcs : concat cs = concat chunks) by apply ne_filter_concat.
   assert (Hne : Forall nonempty cs) by apply ne_filter_nonempty.
-  set (r0 := mkRd [] cs (eff_limit limit) 0 false).
+  set (r0 := mkRd [] cs (eff_limit limit) 0 false (end_of tmo)).
   assert (Hi0 : inv r0) by (apply inv_start; [exact Hne|rewrite Hcs; exact Hb]).
   assert (Hr0 : remaining r0 = body ++ 13 :: 10 :: payload) by (unfold remaining, r0; cbn [r_buf r_chunks app]; congruence).
   assert (Hb0 : blen body + 2 <= budget r0).
@@ -805,14 +805,14 @@ Proof.
   repeat (rewrite <- app_assoc; cbn [app]). reflexivity.
 Qed.
 
-Theorem v1_tcp6_roundtrip limit chunks os od ta tb sp dp payload :
+Theorem v1_tcp6_roundtrip tmo limit chunks os od ta tb sp dp payload :
   concat chunks = enc_v1_tcp6 ta tb sp dp ++ payload ->
   blen (concat chunks) <= BUFSZ ->
   noc 32 ta -> noc 10 ta -> has_colon ta = true -> noc 32 tb -> noc 10 tb -> has_colon tb = true ->
   os <> [] -> od <> [] ->
   0 <= sp < 65536 -> 0 <= dp < 65536 ->
   blen (enc_v1_tcp6 ta tb sp dp) <= eff_limit limit ->
-  conn_run limit chunks os od = VL [VL [VB (canon_ip os); VZ sp]; VL [VB (canon_ip od); VZ dp]; VB payload; VZ 0; VZ 0].
+  conn_run tmo limit chunks os od = VL [VL [VB (canon_ip os); VZ sp]; VL [VB (canon_ip od); VZ dp]; VB payload; VZ 0; VZ 0].
 Proof.
   intros Hs Hb A32 A10 Ac B32 B10 Bc Hos Hod Hsp Hdp Hlim.
   destruct (port_ok sp Hsp) as (DSp & PSp). destruct (port_ok dp Hdp) as (DDp & PDp).
@@ -823,7 +823,7 @@ Proof.
   set (cs := ne_filter chunks).
   assert (Hcs : concat cs = concat chunks) by apply ne_filter_concat.
   assert (Hne : Forall nonempty cs) by apply ne_filter_nonempty.
-  set (r0 := mkRd [] cs (eff_limit limit) 0 false).
+  set (r0 := mkRd [] cs (eff_limit limit) 0 false (end_of tmo)).
   assert (Hi0 : inv r0) by (apply inv_start; [exact Hne|rewrite Hcs; exact Hb]).
   assert (Hr0 : remaining r0 = body ++ 13 :: 10 :: payload) by (unfold remaining, r0; cbn [r_buf r_chunks app]; congruence).
   assert (Hb0 : blen body + 2 <= budget r0).
@@ -874,12 +874,12 @@ Proof.
 Qed.
 
 (* ---------------- v1 UNKNOWN header (short form, or anything up to CRLF) ---------------- *)
-Theorem v1_unknown_roundtrip limit chunks os od junk payload :
+Theorem v1_unknown_roundtrip tmo limit chunks os od junk payload :
   concat chunks = enc_v1_unknown junk ++ payload ->
   blen (concat chunks) <= BUFSZ ->
   (junk = [] \/ exists j, junk = 32 :: j) -> noc 10 junk ->
   blen (enc_v1_unknown junk) <= eff_limit limit ->
-  conn_run limit chunks os od = VL [VL []; VL []; VB payload; VZ 0; VZ 0].
+  conn_run tmo limit chunks os od = VL [VL []; VL []; VB payload; VZ 0; VZ 0].
 Proof.
   intros Hs Hb Hj Hj10 Hlim.
   set (body := SIGV1 ++ 32 :: T_UNKNOWN ++ junk).
@@ -891,7 +891,7 @@ Proof.
   set (cs := ne_filter chunks).
   assert (Hcs : concat cs = concat chunks) by apply ne_filter_concat.
   assert (Hne : Forall nonempty cs) by apply ne_filter_nonempty.
-  set (r0 := mkRd [] cs (eff_limit limit) 0 false).
+  set (r0 := mkRd [] cs (eff_limit limit) 0 false (end_of tmo)).
   assert (Hi0 : inv r0) by (apply inv_start; [exact Hne|rewrite Hcs; exact Hb]).
   assert (Hr0 : remaining r0 = body ++ 13 :: 10 :: payload) by (unfold remaining, r0; cbn [r_buf r_chunks app]; congruence).
   assert (Hb0 : blen body + 2 <= budget r0).
@@ -979,32 +979,32 @@ Qed.
 
 From Bfe Require Import lib.ValProofs run.RunC46.
 
-Definition in_C46 (limit : Z) (chunks : list bytes) (os od : bytes) : val :=
-  VL [VZ limit; vLB chunks; VB os; VB od].
-Lemma dec_in_C46 limit chunks os od : dec_C46 (in_C46 limit chunks os od) = Some (limit, chunks, os, od).
+Definition in_C46 (tmo : bool) (limit : Z) (chunks : list bytes) (os od : bytes) : val :=
+  VL [VZ limit; vLB chunks; VB os; VB od; VZ (if tmo then 1 else 0)].
+Lemma dec_in_C46 tmo limit chunks os od : dec_C46 (in_C46 tmo limit chunks os od) = Some (tmo, limit, chunks, os, od).
 Proof.
   unfold in_C46, dec_C46, vLB, as_LB.
   assert (H : all_some (map as_B (map VB chunks)) = Some chunks).
   { induction chunks as [|c cs IH]; [reflexivity|]. cbn [map as_B all_some]. rewrite IH. reflexivity. }
-  rewrite H. reflexivity.
+  rewrite H. destruct tmo; reflexivity.
 Qed.
 
 (* the executable property evaluated by the harness holds of the model on every conformant v2 PROXY header *)
-Theorem prop_C46_v2_proxy limit chunks os od fam src dst sp dp tlv payload :
+Theorem prop_C46_v2_proxy tmo limit chunks os od fam src dst sp dp tlv payload :
   concat chunks = enc_v2_proxy fam src dst sp dp tlv ++ payload ->
   blen (concat chunks) <= BUFSZ ->
   ((fam = 17 \/ fam = 18) /\ blen src = 4 /\ blen dst = 4) \/ ((fam = 33 \/ fam = 34) /\ blen src = 16 /\ blen dst = 16) ->
   0 <= sp < 65536 -> 0 <= dp < 65536 ->
   16 + blen (block_ip src dst sp dp ++ tlv) <= eff_limit limit ->
-  prop_C46 (in_C46 limit chunks os od) (run_C46 (in_C46 limit chunks os od)) = true
-  /\ kf_C46 (in_C46 limit chunks os od) = 0.
+  prop_C46 (in_C46 tmo limit chunks os od) (run_C46 (in_C46 tmo limit chunks os od)) = true
+  /\ kf_C46 (in_C46 tmo limit chunks os od) = 0.
 Proof.
   intros Hs Hb Hfam Hsp Hdp Hlim.
   assert (HL : blen (block_ip src dst sp dp ++ tlv) < 65536).
   { rewrite Hs, enc_v2_proxy_stream, blen_v2_stream, blen_app in Hb. change BUFSZ with 4096 in Hb.
     pose proof (blen_nonneg payload). lia. }
   unfold prop_C46, kf_C46, run_C46. rewrite dec_in_C46.
-  rewrite (v2_proxy_roundtrip limit chunks os od fam src dst sp dp tlv payload Hs Hb Hfam Hsp Hdp Hlim).
+  rewrite (v2_proxy_roundtrip tmo limit chunks os od fam src dst sp dp tlv payload Hs Hb Hfam Hsp Hdp Hlim).
   rewrite Hs, (spec_classify_v2_proxy limit os od fam src dst sp dp tlv payload Hfam Hsp Hdp Hlim HL).
   split; [|reflexivity].
   rewrite val_eqb_refl. apply orb_true_r.
@@ -1015,20 +1015,20 @@ Definition ex_chunks_v2 : list bytes :=
   [[13; 10; 13]; [10; 0; 13; 10; 81; 85; 73; 84; 10; 33; 17; 0]; [15; 1; 2; 3; 4; 5; 6; 7; 8; 0; 80; 1; 187; 9; 9; 9; 104]; [105]].
 Lemma ex_v2_lemma :
   concat ex_chunks_v2 = enc_v2_proxy 17 [1; 2; 3; 4] [5; 6; 7; 8] 80 443 [9; 9; 9] ++ [104; 105]
-  /\ conn_run 0 ex_chunks_v2 [] [] = VL [VL [VB [1; 2; 3; 4]; VZ 80]; VL [VB [5; 6; 7; 8]; VZ 443]; VB [104; 105]; VZ 0; VZ 0].
+  /\ conn_run false 0 ex_chunks_v2 [] [] = VL [VL [VB [1; 2; 3; 4]; VZ 80]; VL [VB [5; 6; 7; 8]; VZ 443]; VB [104; 105]; VZ 0; VZ 0].
 Proof. split; vm_compute; reflexivity. Qed.
 Definition ex_chunks_local : list bytes := [[13; 10; 13; 10; 0; 13; 10; 81; 85; 73; 84; 10; 32]; [0; 0; 0; 71; 69; 84]].
 Lemma ex_local_lemma :
   concat ex_chunks_local = enc_v2 32 0 [] [] ++ [71; 69; 84]
-  /\ conn_run 0 ex_chunks_local [] [] = VL [VL []; VL []; VB [71; 69; 84]; VZ 0; VZ 0].
+  /\ conn_run false 0 ex_chunks_local [] [] = VL [VL []; VL []; VB [71; 69; 84]; VZ 0; VZ 0].
 Proof. split; vm_compute; reflexivity. Qed.
 (* "PROXY TCP4 1.2.3.4 5.6.7.8 80 443\r\nhi" and "PROXY UNKNOWN\r\nhi", byte-split *)
 Definition ex_v1 : bytes := enc_v1_tcp4 [1; 2; 3; 4] [5; 6; 7; 8] 80 443 ++ [104; 105].
 Lemma ex_v1_lemma :
-  conn_run 0 (map (fun b => [b]) ex_v1) [] [] = VL [VL [VB [1; 2; 3; 4]; VZ 80]; VL [VB [5; 6; 7; 8]; VZ 443]; VB [104; 105]; VZ 0; VZ 0]
-  /\ conn_run 0 [enc_v1_unknown [] ++ [104; 105]] [] [] = VL [VL []; VL []; VB [104; 105]; VZ 0; VZ 0].
+  conn_run false 0 (map (fun b => [b]) ex_v1) [] [] = VL [VL [VB [1; 2; 3; 4]; VZ 80]; VL [VB [5; 6; 7; 8]; VZ 443]; VB [104; 105]; VZ 0; VZ 0]
+  /\ conn_run false 0 [enc_v1_unknown [] ++ [104; 105]] [] [] = VL [VL []; VL []; VB [104; 105]; VZ 0; VZ 0].
 Proof. split; vm_compute; reflexivity. Qed.
 (* a v2 header with an unsupported command is refused without data *)
 Lemma ex_malformed_lemma :
-  conn_run 0 [[13; 10; 13; 10; 0; 13; 10; 81; 85; 73; 84; 10; 34; 17; 0; 0; 104; 105]] [] [] = VL [VL []; VL []; VB []; VZ 2; VZ 1].
+  conn_run false 0 [[13; 10; 13; 10; 0; 13; 10; 81; 85; 73; 84; 10; 34; 17; 0; 0; 104; 105]] [] [] = VL [VL []; VL []; VB []; VZ 2; VZ 1].
 Proof. vm_compute. reflexivity. Qed.
